@@ -12,6 +12,7 @@ Proof.
   induction fs as [|f r IH]; intros off acc files total Hoff; cbn [layout].
   - intros [= <- <-]. exists []. rewrite app_nil_r. cbn. repeat split; lia.
   - destruct (match bf_path8 f with [] => bf_path f | _ => _ end) eqn:P; [discriminate|].
+    destruct (negb (forallb valid_component _)); [discriminate|].
     destruct (bf_len f <? 0)%Z eqn:L; [discriminate|].
     destruct (int64_max <? off + bf_len f)%Z eqn:O; [discriminate|].
     intros H. apply IH in H; [|lia]. destruct H as (tail & -> & C & Hle).
@@ -44,6 +45,7 @@ Proof.
   rewrite PL0.
   destruct (negb (_ =? _)%Z) eqn:NH; [discriminate|].
   destruct (match i_name8 i with [] => i_name i | _ => _ end) eqn:NM; [discriminate|].
+  destruct (negb (valid_component _)); [discriminate|].
   intros [= <-]. unfold geometry_ok, ceil_div. cbn [g_plen g_total g_files g_chunks g_npieces g_nhashes].
   assert (ChunkSize = 16384) by reflexivity.
   apply negb_false_iff, Z.eqb_eq in NH.
@@ -71,7 +73,8 @@ Proof.
   destruct (_ <? 0)%Z eqn:CH; [lia|].
   rewrite PL0.
   destruct (negb (_ =? _)%Z); [discriminate|].
-  destruct (match i_name8 i with [] => i_name i | _ => _ end); discriminate.
+  destruct (match i_name8 i with [] => i_name i | _ => _ end); [discriminate|].
+  destruct (negb (valid_component _)); discriminate.
 Qed.
 
 Lemma read_torrent_total bs : read_torrent bs <> RPanic.
